@@ -266,6 +266,10 @@ func VerifyFunction(ld *Loaded, cs *ContractSet, fn *ssa.Function, ct *Contract)
 	}
 	ex.sc.Prelude = append(ex.stringPrelude(), ex.sc.Prelude...)
 	ex.sc.Prelude = append(ex.sc.Prelude, uninterpDecls...)
+	if ex.useCount() {
+		ex.sc.Prelude = append(ex.sc.Prelude, countPrelude)
+		ex.assumedUsed["counting theory for []bool (cnt.bool: bounds, zero on a fresh array, +-1 at a store)"] = true
+	}
 	res.Obligations = ex.sc.Obls
 	res.Unsupported = sortedKeys(ex.unsupported)
 	res.Assumed = sortedKeys(ex.assumedUsed)
@@ -396,6 +400,10 @@ func VerifyLemma(ld *Loaded, cs *ContractSet, lm *Lemma) (res *FuncResult) {
 	ex.obligeEnv(fr, "lemma", "", tTrue, g, token.NoPos, lenv)
 	ex.sc.Prelude = append(ex.stringPrelude(), ex.sc.Prelude...)
 	ex.sc.Prelude = append(ex.sc.Prelude, uninterpDecls...)
+	if ex.useCount() {
+		ex.sc.Prelude = append(ex.sc.Prelude, countPrelude)
+		ex.assumedUsed["counting theory for []bool (cnt.bool: bounds, zero on a fresh array, +-1 at a store)"] = true
+	}
 	res.Obligations = ex.sc.Obls
 	res.Unsupported = sortedKeys(ex.unsupported)
 	res.Assumed = sortedKeys(ex.assumedUsed)
